@@ -7,9 +7,8 @@
    2. _next_position: every free/ball quaternion written has unit norm (Rot.quat_integrate_unit),
       every other slot is  q + h v s;
    3. _advance / euler: semi-implicit update (position reads the NEW velocity), time, warmstart;
-   4. rungekutta4 = the RK4 tableau applied to the field frozen at t0 (hinge/slide models, plain
-      actuators); = classical RK4 when forward() does not depend on time; a witness that it is
-      NOT the classical method for a time-dependent forward();
+   4. rungekutta4 = classical RK4 with nodes (0, 1/2, 1/2, 1), also for a time-dependent forward()
+      (hinge/slide models, plain actuators), and a worked time-dependent example;
    5. the kernels of the model are equal to the machine translations Gen/kforward.v, Gen/support_act.v;
    6. stage-order facts about the regenerated skeleton. *)
 From Coq Require Import ZArith Reals List Bool Lra Lia Psatz FinFun.
@@ -520,14 +519,6 @@ Section Classical.
     let k4 := field (t + c4 * h) (xaxpy h k3 x) in
     xcomb h x k1 k2 k3 k4.
   Definition classical_rk4 := rk4_nodes (1 / 2) (1 / 2) 1.
-  (* the same tableau applied to the field frozen at the time of the step's start *)
-  Definition frozen_rk4 := rk4_nodes 0 0 0.
-  (* acceleration of the last stage *)
-  Definition last_stage_qacc (h t : R) (x : X) : list R :=
-    let k1 := field t x in
-    let k2 := field t (xaxpy (h / 2) k1 x) in
-    let k3 := field t (xaxpy (h / 2) k2 x) in
-    let '(q4, v4, a4) := xaxpy h k3 x in fst (fwd q4 v4 a4 t).
 End Classical.
 
 Definition fwd_shape (fwd : list R -> list R -> list R -> R -> list R * list R) : Prop :=
@@ -574,11 +565,12 @@ Section RK4.
   Proof. intros E. rewrite axpy_pw. unfold sA. apply pw_ext. intros. rewrite E. ring. Qed.
 
   (* one pass of the loop body of rungekutta4 on pointwise data *)
-  Lemma rk_stage_pw i Q V A qp Vc Ac ac Dc t w rv ra rd :
+  Lemma rk_stage_pw i Q V A qp Vc Ac ac Dc tc t0 w rv ra rd :
     length qp = n -> length ac = na ->
+    let t := t0 + vget rkA i * h in
     rk_stage m fwd i
-      ({| qpos := qp; qvel := pw n Vc; act := ac; time := t; qacc := pw n Ac; act_dot := pw na Dc; warmstart := w |},
-       (pw n rv, pw n ra, pw na rd)) (pw n Q) (pw n V) (pw na A)
+      ({| qpos := qp; qvel := pw n Vc; act := ac; time := tc; qacc := pw n Ac; act_dot := pw na Dc; warmstart := w |},
+       (pw n rv, pw n ra, pw na rd)) (pw n Q) (pw n V) (pw na A) t0
     = ({| qpos := sQ Q Vc (vget rkA i); qvel := sV V Ac (vget rkA i); act := sA A Dc (vget rkA i); time := t;
           qacc := fst (fwd (sQ Q Vc (vget rkA i)) (sV V Ac (vget rkA i)) (sA A Dc (vget rkA i)) t);
           act_dot := snd (fwd (sQ Q Vc (vget rkA i)) (sV V Ac (vget rkA i)) (sA A Dc (vget rkA i)) t);
@@ -587,9 +579,9 @@ Section RK4.
         accum (vget rkB (i + 1)%Z) (pw n ra) (fst (fwd (sQ Q Vc (vget rkA i)) (sV V Ac (vget rkA i)) (sA A Dc (vget rkA i)) t)),
         accum (vget rkB (i + 1)%Z) (pw na rd) (snd (fwd (sQ Q Vc (vget rkA i)) (sV V Ac (vget rkA i)) (sA A Dc (vget rkA i)) t)))).
   Proof.
-    intros Hq Hac.
-    unfold rk_stage, rk_perturb, do_forward. cbn [qpos qvel act time qacc act_dot warmstart].
-    fold h.
+    intros Hq Hac t.
+    unfold rk_stage, rk_perturb, do_forward, rk_stage_time. cbn [qpos qvel act time qacc act_dot warmstart].
+    fold h. change (@sadd R ScalarR t0 (@smul R ScalarR (vget rkA i) h)) with t.
     rewrite (next_position_hs h (vget rkA i) n (joints m) Q Vc qp Hj Hq).
     rewrite next_velocity_pw.
     rewrite (next_activation_plain h (vget rkA i) false na (acts m) A Dc ac Ha Hac).
@@ -608,11 +600,11 @@ Section RK4.
     let d := {| qpos := pw n Q; qvel := pw n V; act := pw na A; time := t;
                 qacc := qa0; act_dot := ad0; warmstart := w |} in
     let d' := step_rk4 m fwd d in
-    (qpos d', qvel d', act d') = frozen_rk4 fwd (timestep m) t (pw n Q, pw n V, pw na A).
+    (qpos d', qvel d', act d') = classical_rk4 fwd (timestep m) t (pw n Q, pw n V, pw na A).
   Proof.
     intros d d'. unfold d', step_rk4, rk4_step, do_forward, d. cbn [qpos qvel act time qacc act_dot warmstart].
     fold h.
-    unfold frozen_rk4, rk4_nodes, field. rewrite !Rmult_0_l, !Rplus_0_r.
+    unfold classical_rk4, rk4_nodes, field.
     destruct (fwd (pw n Q) (pw n V) (pw na A) t) as [A1 D1] eqn:E1.
     cbn [qpos qvel act time qacc act_dot warmstart fst snd].
     destruct (fwd_len_pw n n na Q V A t) as [LA1 LD1]. rewrite E1 in LA1, LD1. cbn [fst snd] in LA1, LD1.
@@ -630,10 +622,10 @@ Section RK4.
     rewrite !(axpy_sV (h / 2) (1 / 2) V fa1) by field.
     rewrite !(axpy_sA (h / 2) (1 / 2) A fd1) by field.
     destruct (fwd_len_pw n n na (fun k => Q k + h * V k * (1 / 2)) (fun k => V k + 1 / 2 * fa1 k * h)
-                (fun k => A k + 1 / 2 * fd1 k * h) t) as [LA2 LD2].
+                (fun k => A k + 1 / 2 * fd1 k * h) (t + 1 / 2 * h)) as [LA2 LD2].
     fold (sQ Q V (1 / 2)) (sV V fa1 (1 / 2)) (sA A fd1 (1 / 2)) in LA2, LD2.
-    remember (fst (fwd (sQ Q V (1 / 2)) (sV V fa1 (1 / 2)) (sA A fd1 (1 / 2)) t)) as A2 eqn:EA2 in *.
-    remember (snd (fwd (sQ Q V (1 / 2)) (sV V fa1 (1 / 2)) (sA A fd1 (1 / 2)) t)) as D2 eqn:ED2 in *.
+    remember (fst (fwd (sQ Q V (1 / 2)) (sV V fa1 (1 / 2)) (sA A fd1 (1 / 2)) (t + 1 / 2 * h))) as A2 eqn:EA2 in *.
+    remember (snd (fwd (sQ Q V (1 / 2)) (sV V fa1 (1 / 2)) (sA A fd1 (1 / 2)) (t + 1 / 2 * h))) as D2 eqn:ED2 in *.
     clear EA2 ED2. pwize A2 n fa2. pwize D2 na fd2.
     unfold sQ, sV, sA in *. rewrite !accum_pw in EST.
     (* stage 3 *)
@@ -642,9 +634,9 @@ Section RK4.
     rewrite ?(axpy_sQ (h / 2) (1 / 2) Q) by field.
     rewrite ?(axpy_sV (h / 2) (1 / 2) V) by field.
     rewrite ?(axpy_sA (h / 2) (1 / 2) A) by field.
-    match type of EST with context [fst (fwd ?a ?b ?c t)] =>
-      destruct (Hf a b c t) as [LA3 LD3];
-      remember (fst (fwd a b c t)) as A3 eqn:EA3 in *; remember (snd (fwd a b c t)) as D3 eqn:ED3 in * end.
+    match type of EST with context [fst (fwd ?a ?b ?c ?tt)] =>
+      destruct (Hf a b c tt) as [LA3 LD3];
+      remember (fst (fwd a b c tt)) as A3 eqn:EA3 in *; remember (snd (fwd a b c tt)) as D3 eqn:ED3 in * end.
     unfold sV, sA in LA3, LD3; rewrite pw_length in LA3, LD3.
     clear EA3 ED3. pwize A3 n fa3. pwize D3 na fd3.
     unfold sQ, sV, sA in *. rewrite !accum_pw in EST.
@@ -654,9 +646,9 @@ Section RK4.
     rewrite ?(axpy_sQ h 1 Q) by field.
     rewrite ?(axpy_sV h 1 V) by field.
     rewrite ?(axpy_sA h 1 A) by field.
-    match type of EST with context [fst (fwd ?a ?b ?c t)] =>
-      destruct (Hf a b c t) as [LA4 LD4];
-      remember (fst (fwd a b c t)) as A4 eqn:EA4 in *; remember (snd (fwd a b c t)) as D4 eqn:ED4 in * end.
+    match type of EST with context [fst (fwd ?a ?b ?c ?tt)] =>
+      destruct (Hf a b c tt) as [LA4 LD4];
+      remember (fst (fwd a b c tt)) as A4 eqn:EA4 in *; remember (snd (fwd a b c tt)) as D4 eqn:ED4 in * end.
     unfold sV, sA in LA4, LD4; rewrite pw_length in LA4, LD4.
     clear EA4 ED4. pwize A4 n fa4. pwize D4 na fd4.
     unfold sQ, sV, sA in *. rewrite !accum_pw in EST.
@@ -670,38 +662,30 @@ Section RK4.
     f_equal; [f_equal|]; apply pw_ext; intros i Hi; field.
   Qed.
 
-  (* d.time is not touched by the stages; the final _advance adds one timestep *)
-  Lemma rk_stage_time i st q0 v0 a0 : time (fst (rk_stage m fwd i st q0 v0 a0)) = time (fst st).
-  Proof.
-    destruct st as [d r]. unfold rk_stage, do_forward, rk_perturb. cbn [qpos qvel act time qacc act_dot warmstart fst].
-    destruct (fwd _ _ _ _). reflexivity.
-  Qed.
 End RK4.
 
 Lemma pw_nth_id (l : list R) n : length l = n -> pw n (fun i => nth i l 0) = l.
 Proof. intros E. subst n. symmetry. apply pw_of_list. Qed.
 
+(* the stages move d.time, the copy d.time <- time_t0 restores it, _advance adds one timestep *)
 Lemma step_rk4_time (m : model R) fwd d : time (step_rk4 m fwd d) = time d + timestep m.
 Proof.
   unfold step_rk4, rk4_step.
   set (d1 := do_forward fwd d).
   assert (T1 : time d1 = time d). { unfold d1, do_forward. destruct (fwd _ _ _ _). reflexivity. }
-  match goal with |- time (let '(_, _) := ?st in _) = _ => remember st as ST eqn:EST end.
-  assert (TS : time (fst ST) = time d).
-  { rewrite EST. unfold for_range. change (Z.to_nat (3 - 0)) with 3%nat. cbn [for_nat].
-    rewrite !rk_stage_time. exact T1. }
-  destruct ST as [d0 [[vr ar] adr]]. cbn [fst] in TS.
-  unfold advance. cbn [time]. rewrite TS. reflexivity.
+  match goal with |- time (let '(_, _) := ?st in _) = _ => destruct st as [d0 [[vr ar] adr]] end.
+  unfold advance. cbn [time]. rewrite T1. reflexivity.
 Qed.
 
 (* MJWarp's rungekutta4 (after step()'s forward) on a hinge/slide model with plain actuators IS the
-   RK4 tableau  x + h/6 (k1 + 2 k2 + 2 k3 + k4),  k_{i+1} = f(x + a_i h k_i),  applied to the
-   field f(x) = (qvel, qacc(x, t0), act_dot(x, t0)) FROZEN at the start time t0 *)
+   classical RK4 method  x + h/6 (k1 + 2 k2 + 2 k3 + k4),  k_i = f(t0 + c_i h, x + a_i h k_{i-1}),
+   c = (0, 1/2, 1/2, 1), for the (possibly time-dependent) field
+   f(t, x) = (qvel, qacc(x, t), act_dot(x, t)) given by forward() *)
 Theorem rk4_is_classical (m : model R) fwd (n na : nat) (d : data R) :
   hinge_slide_layout n (joints m) -> plain_acts na (acts m) -> fwd_shape fwd ->
   length (qpos d) = n -> length (qvel d) = n -> length (act d) = na ->
   let d' := step_rk4 m fwd d in
-  (qpos d', qvel d', act d') = frozen_rk4 fwd (timestep m) (time d) (qpos d, qvel d, act d)
+  (qpos d', qvel d', act d') = classical_rk4 fwd (timestep m) (time d) (qpos d, qvel d, act d)
   /\ time d' = time d + timestep m.
 Proof.
   intros Hj Ha Hf Lq Lv La d'. split; [|apply step_rk4_time].
@@ -711,28 +695,7 @@ Proof.
   cbv zeta in K. rewrite !pw_nth_id in K by auto. exact K.
 Qed.
 
-Lemma field_autonomous fwd :
-  (forall q v a t t', fwd q v a t = fwd q v a t') -> forall t t' x, field fwd t x = field fwd t' x.
-Proof. intros Hau t t' [[q v] a]. unfold field. rewrite (Hau q v a t t'). reflexivity. Qed.
-
-(* ... hence the classical method whenever forward() does not depend on d.time *)
-Theorem rk4_is_classical_autonomous (m : model R) fwd (n na : nat) (d : data R) :
-  hinge_slide_layout n (joints m) -> plain_acts na (acts m) -> fwd_shape fwd ->
-  (forall q v a t t', fwd q v a t = fwd q v a t') ->
-  length (qpos d) = n -> length (qvel d) = n -> length (act d) = na ->
-  let d' := step_rk4 m fwd d in
-  (qpos d', qvel d', act d') = classical_rk4 fwd (timestep m) (time d) (qpos d, qvel d, act d).
-Proof.
-  intros Hj Ha Hf Hau Lq Lv La d'.
-  destruct (rk4_is_classical m fwd n na d Hj Ha Hf Lq Lv La) as [K _]. fold d' in K. rewrite K.
-  unfold frozen_rk4, classical_rk4, rk4_nodes.
-  rewrite !(field_autonomous fwd Hau (time d + 0 * timestep m) (time d)).
-  rewrite !(field_autonomous fwd Hau (time d + 1 / 2 * timestep m) (time d)).
-  rewrite !(field_autonomous fwd Hau (time d + 1 * timestep m) (time d)).
-  reflexivity.
-Qed.
-
-(* ---- the intermediate stages are evaluated at t0, not at t0 + c_i h --------------------------- *)
+(* ---- the intermediate stages are evaluated at t0 + c_i h -------------------------------------- *)
 Definition ex_model : model R :=
   {| timestep := 1; joints := [ {| jtype := 2; qposadr := 0; dofadr := 0 |} ]; acts := [] |}.
 (* a force that grows with time: qacc = time *)
@@ -749,31 +712,22 @@ Proof.
   - unfold ex_fwd. cbn. apply map_length.
 Qed.
 
-(* for qacc = t, x(0) = v(0) = 0, h = 1 the classical method gives v(1) = 1/2 (exact), MJWarp's gives 0 *)
-Theorem rk4_nonautonomous_refuted :
-  exists (m : model R) fwd (d : data R) (n na : nat),
-    hinge_slide_layout n (joints m) /\ plain_acts na (acts m) /\ fwd_shape fwd /\
-    length (qpos d) = n /\ length (qvel d) = n /\ length (act d) = na /\
-    let d' := step_rk4 m fwd d in
-    qvel d' = [0] /\
-    snd (fst (classical_rk4 fwd (timestep m) (time d) (qpos d, qvel d, act d))) = [1 / 2].
+(* for qacc = t, x(0) = v(0) = 0, h = 1 the model of rungekutta4 gives v(1) = 1/2, the exact value
+   (a method that evaluated every stage at t0 would give 0; this was finding
+   C08:rk4:stage-time-not-advanced before the repair) *)
+Theorem rk4_time_dependent_example :
+  qvel (step_rk4 ex_model ex_fwd ex_data) = [1 / 2].
 Proof.
-  exists ex_model, ex_fwd, ex_data, 1%nat, 0%nat.
   destruct ex_layout as (Hj & Ha & Hf).
-  split; [exact Hj|]. split; [exact Ha|]. split; [exact Hf|].
-  split; [reflexivity|]. split; [reflexivity|]. split; [reflexivity|]. cbv zeta. split.
-  - destruct (rk4_is_classical ex_model ex_fwd 1 0 ex_data Hj Ha Hf eq_refl eq_refl eq_refl) as [K _].
-    cbv zeta in K.
-    assert (E : qvel (step_rk4 ex_model ex_fwd ex_data)
-                = snd (fst (frozen_rk4 ex_fwd (timestep ex_model) (time ex_data) (qpos ex_data, qvel ex_data, act ex_data)))).
-    { rewrite <- K. reflexivity. }
-    rewrite E.
-    cbv [frozen_rk4 rk4_nodes field xaxpy axpy xcomb comb pw vmap2 map seq length nth fst snd
-         ex_fwd ex_model ex_data qpos qvel act time timestep].
-    f_equal. field.
-  - cbv [classical_rk4 rk4_nodes field xaxpy axpy xcomb comb pw vmap2 map seq length nth fst snd
-         ex_fwd ex_model ex_data qpos qvel act time timestep].
-    f_equal. field.
+  destruct (rk4_is_classical ex_model ex_fwd 1 0 ex_data Hj Ha Hf eq_refl eq_refl eq_refl) as [K _].
+  cbv zeta in K.
+  assert (E : qvel (step_rk4 ex_model ex_fwd ex_data)
+              = snd (fst (classical_rk4 ex_fwd (timestep ex_model) (time ex_data) (qpos ex_data, qvel ex_data, act ex_data)))).
+  { rewrite <- K. reflexivity. }
+  rewrite E.
+  cbv [classical_rk4 rk4_nodes field xaxpy axpy xcomb comb pw vmap2 map seq length nth fst snd
+       ex_fwd ex_model ex_data qpos qvel act time timestep].
+  f_equal. field.
 Qed.
 
 (* ---- Euler ------------------------------------------------------------------------------- *)
@@ -916,11 +870,7 @@ Lemma next_act_is_translated (h : S) (dyn : Z) (prm : list S) (lo hi a ad s : S)
   = next_act h dyn (vget prm 0) lo hi a ad s c.
 Proof.
   unfold Gen.support_act.next_act, next_act, MJ_MINVAL. cbv zeta.
-  destruct (dyn =? 3) eqn:E3; destruct (dyn =? 7) eqn:E7.
-  - apply Z.eqb_eq in E3, E7. lia.
-  - destruct c; reflexivity.
-  - reflexivity.
-  - destruct c; reflexivity.
+  destruct (dyn =? 3); [|destruct (dyn =? 7)]; destruct c; reflexivity.
 Qed.
 End TTie.
 
